@@ -1,7 +1,7 @@
 """Self-test variants for C03 (entry points agree; rejections are the configured violation)."""
 import ast
 
-from .variant import Variant, seeded, neutral, sub, chain, tseeded, replace_where
+from .variant import Variant, seeded, neutral, sub, chain, tseeded, replace_where, find_def, stmts
 
 EMAP = 'beartype/_check/error/_errmap.py'
 LOG = 'beartype/_check/cls/logic/logcls.py'
@@ -88,6 +88,9 @@ VARIANTS = {
                                                'the defect repaired by the fix commit (F21), reintroduced for & and |'),
     'leaf-diagnosis-unguarded': tseeded(VCORE, lambda t: replace_where(
         t, lambda n: isinstance(n, ast.Try) and 'self.is_valid(obj)' in ast.unparse(n), lambda n: n.body, scope='get_diagnosis'), 'C03.R9'),
+    'container-finder-accepts-empty-before-origin-test': tseeded(ECON, lambda t: (find_def(t, 'find_cause_pep484585_container_args_1').body.insert(
+        1, stmts('if isinstance(cause.pith, Collection) and not len(cause.pith):\n    return cause')[0]) or True), 'C03.R3', 'seeded C03-21'),
+    'counter-counts-not-explained': seeded(EMP, "cause.sanify_hint_child(int)", "HINT_SANE_IGNORABLE", 'C03.R3', 'seeded C03-22'),
     # ---- neutral ------------------------------------------------------------------
     'n-errmap-reorder-specifics': Variant('neutral', [EMAP], chain(
         sub(EMAP, "        HintSignLiteral: find_cause_pep586_literal,\n", ""),
